@@ -177,4 +177,25 @@ theorem dotL_unitL : ∀ (n j : Nat) (x : List K), dotL x (unitL n j) = if j < n
       simp only [unitL, dotL, ih]
       simp
 
+/-! ### unfolding lemmas (restatements of definitions; not property statements) and jet projections -/
+theorem mulFrameJ_def (ts : List (Tr K)) (tasks : List (Task K)) (u : List K) :
+    mulFrameJ ts tasks u = tasks.map (fun t => phiT t.r (lookup t.body (sysJ ts u))) := rfl
+
+/-- the rows `calcFrameJ` returns are exactly those vectors -/
+theorem calcFrameJ_def (ts : List (Tr K)) (n : Nat) (tasks : List (Task K)) :
+    calcFrameJ ts n tasks = tasks.map (fun t => (List.range 6).map
+      (fun i => sysJTflat ts n (single t.body (phi t.r (SV.unit i))))) := rfl
+
+/-- `calcSystemJacobian`: column `j` is the operator applied to the unit vector `e_j` -/
+theorem calcSysJ_col (ts : List (Tr K)) (n j : Nat) (hj : j < n) :
+    (calcSysJ ts n)[j]? = some (sysJ ts (unitL n j)) := by
+  simp [calcSysJ, hj]
+
+theorem Jet.add_re (a b : Jet K) : (a + b).re = a.re + b.re := rfl
+theorem Jet.add_ep (a b : Jet K) : (a + b).ep = a.ep + b.ep := rfl
+theorem Jet.sub_re (a b : Jet K) : (a - b).re = a.re - b.re := rfl
+theorem Jet.sub_ep (a b : Jet K) : (a - b).ep = a.ep - b.ep := rfl
+theorem Jet.mul_re (a b : Jet K) : (a * b).re = a.re * b.re := rfl
+theorem Jet.mul_ep (a b : Jet K) : (a * b).ep = a.re * b.ep + a.ep * b.re := rfl
+
 end C04
